@@ -21,7 +21,7 @@ def make_beads(case):
     K = case['K']
     nch = case['nch']
     sizes = case['sizes']
-    chans = ['FL1', 'FL2', 'FL3'][:nch]
+    chans = (['FL3', 'FL1', 'FL2'] if case.get('names') == 'unsorted' else ['FL1', 'FL2', 'FL3'])[:nch]
     laws = []
     ratio = case['ratio']
     mefs = []
@@ -79,6 +79,7 @@ class Prop(common.PropertyCheck):
     pid = 'C02'
     rule = ("synthetic bead samples inside the stated envelope (6..8 subpopulations, adjacent ratio 2.5..4, CV 2..5 %, 200..800 events each, shuffled, slope "
             "0.9..1.2, intercept 1..5, autofluorescence below half the dimmest non-blank bead, 1..3 channels with independent laws, optional blank / saturated "
+            "(channel names in sorted or unsorted order, clustering channels explicit or defaulted) "
             "brightest population / unknown MEF entries, clustering-channel choices, median or mean): (i) clustering replaced by the true labels randomly "
             "renamed — pairing, exclusion, list consistency compared with the Lean pipeline and with the fit to the true subpopulation statistics; (ii) the real "
             "Gaussian-mixture clustering under a fixed seed — grouping vs the generating partition, conversion within 10 % of the truth, reproducibility, "
@@ -100,7 +101,7 @@ class Prop(common.PropertyCheck):
                 unk = [(rng.randrange(nch), rng.randrange(K))]
             yield {'k': 'beads', 'K': K, 'nch': nch, 'sizes': sizes, 'ratio': rng.uniform(2.5, 4.0), 'cv': rng.uniform(0.02, 0.05),
                    'blank': rng.random() < 0.4, 'saturate': rng.random() < 0.3, 'unknown': unk, 'stat': rng.choice(['median', 'median', 'mean']),
-                   'clust': rng.choice(['all', 'first']), 'seed': rng.randrange(1 << 30), 'stream': 'main',
+                   'clust': rng.choice(['all', 'first', 'default']), 'names': rng.choice(['sorted', 'unsorted']), 'seed': rng.randrange(1 << 30), 'stream': 'main',
                    'order': rng.choice(['shuffled', 'shuffled', 'grouped', 'grouped_desc'])}
         # fixed (seed independent) stream with strongly unequal population sizes 200..800
         fr = np.random.RandomState(20260927)
@@ -118,7 +119,7 @@ class Prop(common.PropertyCheck):
             return {'harness_err': traceback.format_exc()[-300:]}
         K, nch = case['K'], case['nch']
         chans = tr['chans']
-        clch = chans if case['clust'] == 'all' else [chans[0]]
+        clch = chans if case['clust'] == 'all' else None if case['clust'] == 'default' else [chans[0]]
         statf = FlowCal.stats.median if case['stat'] == 'median' else FlowCal.stats.mean
         out = {'K': K}
         rr = np.random.RandomState(case['seed'] % 1000)
